@@ -360,7 +360,15 @@ func (tr *Tracker) Idle(s *media.Stream, cid media.CID) bool {
 	if q < 0 {
 		return true // no longer attached: nothing left to deliver
 	}
-	return seen && !b && q <= 0
+	// the schedule points alone leave a gap: a goroutine that has popped a pack but has
+	// not reached consume.after-pop yet looks parked with an empty queue (under load the
+	// gap can last long). The byte counters close it: "in" grows when a pack is queued,
+	// "out" when Consume has returned.
+	in, out, ok := media.VerifFlow(s, cid)
+	if !ok {
+		return true
+	}
+	return seen && !b && q <= 0 && in == out
 }
 
 // WaitIdle polls until every listed consumer is idle; false when the bound is
